@@ -8,7 +8,7 @@ of mc.sched.  A *harness* is an object with
   horizon, time_horizon     ints/floats (optional)
   fingerprint(params)       optional -> callable for state counting
 """
-import time, json, hashlib
+import os, time, json, hashlib
 import multiprocessing as mp
 from mc import sched
 from mc.common import ToolingError, pmap, ncpu, known_findings
@@ -185,6 +185,10 @@ def explore(harness, param_list, bound, max_exec_per_param=None, deadline=None, 
     """explore every params in param_list to the deviation bound, in parallel.
     budget_s: wall-clock budget; when it runs out the exploration stops and reports capped (exhaustive false).
     Returns Stats."""
+    if budget_s is None and deadline is None:
+        # no exploration runs without a wall-clock limit: on a loaded machine a thorough-tier exploration ends as "capped"
+        # (exhaustive false in the evidence, what was covered is reported) instead of tripping the pool watchdog
+        budget_s = float(os.environ.get("VERIF_EXPLORE_BUDGET", "2400"))
     if budget_s is not None:
         deadline = time.time() + budget_s
     pool_timeout = 3000 if budget_s is None else budget_s + 900
